@@ -141,7 +141,7 @@ def run_tlc(module, cfg, workdir=None, workers=16, simulate=None, depth=None, se
             m = re.match(r"^Error: Action property (\S+) is violated", line)
             if m and not r.violation:
                 r.violation = m.group(1)
-            m = re.match(r"^Error: Temporal properties were violated", line)
+            m = re.match(r"^Error: Temporal propert(ies were|y \S+ was) violated", line)
             if m and not r.violation:
                 r.violation = "temporal"
             if line.startswith("Error: ") and not r.violation and not r.error and \
